@@ -1,3 +1,4 @@
+import copy
 """Scenario generators: seed -> explicit JSON scenario document (swarm style: everything
 varies per run, everything small). Generation happens in the parent and never touches
 felupe; validity that needs felupe (dV > 0 after perturbation) is decided in the worker
@@ -162,6 +163,8 @@ def gen_job(seed, profile="general"):
     if dim == 2 and case == "biaxial" and fkind == "Mixed3":
         case = "uniaxial"
     bc = {"case": case}
+    if case == "patch" and seed % 2:
+        bc["init"] = "scalar"  # the boundary is created with a scalar value, the ramp hands it arrays
     if case == "uniaxial":
         bc["clamped"] = r.random() < 0.4
         bc["sym"] = True
@@ -253,9 +256,13 @@ def gen_job(seed, profile="general"):
             ramp.append({"target": "bc:move", "values": vals})
             ramp.append({"target": "bc:move2", "values": [round(v * 0.5, 6) for v in vals]})
         else:
-            ramp.append({"target": "bc:move", "values": vals})
+            mv = vals
+            if case == "custom" and not any(bc["list"][1]["skip"]) and doc["seed"] % 2 == 0:
+                # vector-valued ramp (one row per substep): push / pull with a little shear
+                mv = [[v, round(0.3 * v, 6), 0.0][:dim] for v in vals]
+            ramp.append({"target": "bc:move", "values": mv})
             if any(b_.get("name") == "guide" for b_ in bc.get("list", [])):
-                ramp.append({"target": "bc:guide", "values": list(vals)})
+                ramp.append({"target": "bc:guide", "values": copy.deepcopy(mv)})
         for k, it in enumerate(items):
             if "_top" in it:
                 tv = it["_top"]
